@@ -31,3 +31,20 @@ P('C11', shards=16, fuzz=[('FuzzHistory', 45)],
        'and the full probe set at the end. Exploration, not proof.',
   note='Trusts the 15-line reference model; real IPv6 addresses as Contains arguments and the mixed form (16-byte IP with 4-byte mask) are outside the statement.',
   design='3/C11')
+
+P('C04', shards=16, fuzz=[('FuzzDispatch', 45)],
+  technique='property-based differential testing against a reference router (candidate-set filtering over the flat route list) + exhaustive small-scope enumeration of tables x paths + native fuzzing',
+  text='Generated route tables (literals, :params, *, repeated/trailing slashes, all methods) are registered on the real Mux; every generated request (arbitrary path strings incl. "", "*", // runs, '
+       'trailing slashes, :x and * segments, unknown/empty methods) must invoke exactly one handler, never panic, and select the route and bindings of an independent reference router written from the '
+       'documented precedence. All tables of <= 3 routes over a small alphabet x all paths of <= 4 segments are enumerated completely in the thorough tier. Exploration, not proof.',
+  note='Trusts the reference router (about 100 lines). Tables containing registrations that panic are out of scope; for paths without a leading slash only "exactly one handler, no panic" is asserted.',
+  design='3/C04')
+
+P('C05', shards=16,
+  passes=[{'race': False, 'run': '^(TestSequential|TestRegression)$', 'env': {'GOMAXPROCS': 1}}, {'race': True, 'run': '^TestWithBursts$'}],
+  technique='model-based stateful property testing (rapid state machine over one long-lived Mux; oracle: same request on a fresh Mux + reference router; ID uniqueness invariant), concurrent bursts under the race detector',
+  text='Generated histories of registrations, matching / non-matching / panicking requests and concurrent bursts run on one long-lived Mux (single goroutine, so sync.Pool hands the same Store back; reuse is observed by pointer identity). '
+       'What the relay (before/after), the route handler and the no-route handler see - Store.I, every parameter lookup for every name of the table, RouteParamAny, the initial status, the request ID - must equal the same request on a fresh Mux '
+       'and the reference router; IDs must be constant within and unique across requests; no accessor may panic. Bursts run under -race. Exploration, not proof.',
+  note='Trusts the reference router and the fresh-Mux comparison; concurrent interleavings are sampled by the Go scheduler, not enumerated.',
+  design='3/C05')
